@@ -31,7 +31,7 @@ TFlips == Consume("flips") /\ Ev.nacc = 0 /\ Ev.baseok /\ Keep
 TAppend == /\ Consume("append")
            /\ LET ok == Ev.emr > 0 IN
                 /\ Deliver(Ev.tm, ok)
-                /\ Ev.emr = (IF ok THEN 1 ELSE 0) /\ Ev.gme = Ev.emr /\ Ev.stray = 0 /\ Ev.grew = 2
+                /\ Ev.emr = (IF ok THEN 1 ELSE 0) /\ Ev.gme = Ev.emr /\ Ev.listed = ok /\ Ev.stray = 0 /\ Ev.grew = 2
                 /\ (Strict => idx' = Proj(Ev.st))
                 /\ (~ok => Ev.pre = Ev.post)
            /\ UNCHANGED <<flight, nmut, ndel>>
